@@ -144,7 +144,8 @@ class Report:
             if len(self.samples) < 16: self.samples.append(s)
         for f in st['fns']: self.functions[f] = self.functions.get(f, 0) + 1
         self.models_used |= set(st['models_used'])
-        self.inconclusive += st['inconclusive']
+        for m in st['inconclusive']:
+            if m not in self.inconclusive: self.inconclusive.append(m)
 
     def finish(self):
         """write evidence, print verdict lines, return exit code."""
